@@ -79,9 +79,9 @@ def outerSimp : Rat := 10101 / 10000
 
 /-! ### exact squared distances -/
 
-def Q.ofRat (r : Rat) : Q := ⟨r.num, r.den⟩
-def Q.mul (a b : Q) : Q := ⟨a.n * b.n, a.d * b.d⟩
-def Q.min (a b : Q) : Q := if a.le b then a else b
+def qOfRat (r : Rat) : Q := ⟨r.num, r.den⟩
+def qMul (a b : Q) : Q := ⟨a.n * b.n, a.d * b.d⟩
+def qMin (a b : Q) : Q := if a.le b then a else b
 
 /-- squared distance of `p` to the vertex `v` -/
 def d2Pt (p : HPt) (v : Pt) : Q :=
@@ -181,15 +181,15 @@ def Feat.covered (F : Feat) (p : HPt) (r2 : Q) : Bool :=
 /-- no feature of the ideal buffer of radius `√r2` (joins up to `√(fJoin2·r2)`, caps up to `√(fCap2·r2)`) reaches `p` -/
 def Feat.clear (F : Feat) (p : HPt) (r2 fJoin2 fCap2 : Q) : Bool :=
   (F.segs.all fun s => match d2Slab p s with | some d => r2.le d | none => true) &&
-  (F.joinV.all fun v => (fJoin2.mul r2).le (d2Pt p v)) &&
-  (F.capV.all fun v => (fCap2.mul r2).le (d2Pt p v))
+  (F.joinV.all fun v => (qMul fJoin2 r2).le (d2Pt p v)) &&
+  (F.capV.all fun v => (qMul fCap2 r2).le (d2Pt p v))
 
 /-- plain squared distance to the linework and points of the input (polygon interiors not considered) -/
 def Feat.dist2 (F : Feat) (p : HPt) : Option Q :=
   let ds := F.segs.map (d2Seg p) ++ F.verts.map (d2Pt p)
   match ds with
   | [] => none
-  | d :: r => some (r.foldl Q.min d)
+  | d :: r => some (r.foldl qMin d)
 
 /-- what the specification says about a location -/
 inductive Verdict where | mustIn | mustOut | free
